@@ -217,7 +217,7 @@ def big_cases(rng, thorough=False):
     deep = [802, rng.randint(803, 1000), 1025, rng.randint(1100, 1500), rng.choice([2049, 3000]), 5000, 10007] + ([20000, 100003] if thorough else [])
     mid = [17, 65, 257]
     for n in mid + deep:
-        order = rng.choice(["path", "path", "rot", "rev", "shuffle"]) if n in mid else rng.choice(["path", "path", "rot"])
+        order = rng.choice(["path", "path", "rot", "rev", "shuffle"]) if n in mid else ("path" if n >= 5000 else rng.choice(["path", "path", "rot"]))
         base = list(range(n))
         nodes = {"path": base, "rot": base[n // 3:] + base[:n // 3], "rev": base[::-1], "shuffle": rng.sample(base, n)}[order]
         # one directed cycle: a single component of n nodes
@@ -250,7 +250,7 @@ def big_cases(rng, thorough=False):
     adj[n // 2] = adj[n // 2] + [n + 3]
     out.append(_case(list(range(2 * n)), adj, f"cycle_to_cycle({n})", n + n, {"n_comps": 2, "cyclic": True, "max_comp": n}))
     # in-degree / multiplicity / queue-length thresholds (shallow recursion)
-    for k in [257, rng.choice([1025, 2049]), 65537 if thorough or rng.random() < 0.5 else 4099]:
+    for k in [257, rng.choice([1025, 2049, 4099]), 65537]:
         adj = {i: [k] for i in range(k)}
         out.append(_case(list(range(k + 1)), adj, f"star_in({k})", 2, {"n_comps": k + 1, "cyclic": False, "max_comp": 1}))
         adj = {0: list(range(1, k + 1))}
@@ -383,7 +383,8 @@ def big_judge(case, outs):
     case["_work"] = {
         "tarjan_nodes_indexed": len(ns), "tarjan_edges_scanned": sum(len(ws) for _, ws in case["adj"]),
         "tarjan_neighbours_of_one_node": max([len(ws) for _, ws in case["adj"]] or [0]),
-        "tarjan_recursion_depth": len(ns) if fam.startswith(("cycle(", "chain(")) and fam.endswith(",path)") else 0,
+        "tarjan_recursion_depth": (len(ns) if fam.endswith(",path)") else len(ns) - len(ns) // 3 if fam.endswith(",rot)") else 0)
+        if fam.startswith(("cycle(", "chain(")) else 0,
         "tarjan_stack_size": max(sizes.values() or [0]), "tarjan_component_pop_loop": max(sizes.values() or [0]), "components": ncls,
         "kahn_nodes_output": 0 if cyclic else len(ns), "kahn_in_degree_of_one_node": max(indeg.values() or [0]),
         "kahn_initial_queue": sum(1 for v in ns if v not in indeg),
@@ -683,7 +684,7 @@ def run_huge(case):
                 bad.append((which, d))
         res = r = None
     work = {"tarjan_nodes_indexed": N, "components": want_count, "condense_node_to_component_entries": N,
-            "kahn_nodes_output": 0 if cyclic else N, "kahn_initial_queue": N - len({w for ws in succ.values() for w in ws}) if not tri else 0}
+            "kahn_nodes_output": N if "topo" in case["funcs"] and not tri else 0, "kahn_initial_queue": N - len({w for ws in succ.values() for w in ws}) if not tri else 0}
     return {"huge": True, "bad": bad, "work": work, "calls": calls}
 
 
